@@ -313,10 +313,13 @@ def main(argv):
                "since the previous build")
     ck.assumptions = ["files are not edited while a build runs", "builds run to completion (C08 covers crashes)",
                       "OKL builds with okl/strict_headers (defaults)", "hash / 64-bit directory-name collisions are outside the property"]
+    T0 = time.time()
     ck.translate(["gen_hash", "gen_cachekey"])
     ck.prove("C07")
+    T1 = time.time()
     hb = ck.harness("h_cachekey")
     db = ck.driver("drv_cache")
+    T2 = time.time()
     if not hb or not db:
         ck.finish(META["level_text"])
     lanes = device_lanes(ck, hb, fresh_dir("c07-dev-%d" % ck.seed))
@@ -326,7 +329,7 @@ def main(argv):
         mode, ops = parse_replay(ck.replay)
         jobs = [(mode, ops, "replay")]
     else:
-        nh, nb = (5, 4) if ck.tier == "quick" else (120, 7)
+        nh, nb = (4, 4) if ck.tier == "quick" else (100, 7)
         jobs = [(("serial", "openmp")[i % 2], ops, "%d-c%d" % (ck.seed, i)) for i, ops in enumerate(CORPUS if ck.tier != "quick" else CORPUS[:3] + CORPUS[4:5])]
         jobs += [(ck.rng.choice(["serial", "openmp"]), gen_history(ck.rng, ck.rng.randint(3, nb)), "%d-%d" % (ck.seed, i)) for i in range(nh)]
         jobs += [("serial", ops, "%d-k%d" % (ck.seed, i)) for i, ops in enumerate(KNOWN_REPLAYS)]
@@ -350,6 +353,7 @@ def main(argv):
                         rp = os.path.join(VERIF, "evidence", "replays", "C07-%d-%d.hist" % (ck.seed, n))
                         open(rp, "w").write("## property C07 seed %d\n## %s\n%s\n" % (ck.seed, what, text))
                         ck.violations.append({"what": what, "replay": rp, "found_input": False})
+    ck.cov["counters"]["phase_seconds"] = {"translate+prove": round(T1 - T0), "harness+driver build": round(T2 - T1), "histories": round(time.time() - T2)}
     ck.cov["evaluations"] = tot["builds"]
     ck.cov["distinct_nontrivial"] = nontriv
     ck.cov["counters"].update({"histories": len(jobs), "builds_in_fresh_processes": tot["builds"], "cache_hits": tot["hits"],
